@@ -22,13 +22,17 @@ ID = "C11"
 BUDGET = {"quick": 48, "thorough": 800}
 BATCH = 6
 CASE_TIMEOUT = 600
-RULE = ("cases are batches of 6 generated documents (every schema kind in attribute / list item / union member / additional "
+RULE = ("cases are batches of 6 generated documents plus 2 hand-shaped ones per batch (a property declared by two allOf members, "
+        "drawn from C15's matrix cells that have a conjunction, with defaults; one component union shared by a parameter, required "
+        "and optional model properties, array items, a body and a response) - the generated ones cover every schema kind in attribute / list item / union member / additional "
         "property / parameter / body / response position, quoted forward references between sibling models, multi-status response "
         "unions, allOf compositions that share array properties) x literal_enums: (a) all packages of a batch are type-checked by one "
         "mypy process with the repository's own flags (disallow_any_generics, disallow_untyped_defs, warn_redundant_casts, "
         "strict_equality); (b) every value obtained by decoding a schema-valid instance or a served response must conform to the "
         "annotation that holds it (typing.get_type_hints); (c) values drawn from each constructor / function parameter annotation "
-        "must be accepted by to_dict / _get_kwargs. An evaluation = one package type-checked, one conformance check or one "
+        "must be accepted by to_dict / _get_kwargs. (d) every default a generated model class declares is admitted by its own annotation and every package generated without "
+        "an error imports; every run also type-checks the complete set of compositions whose two members declare one property with "
+        "the same kind of schema and a default (78 documents). An evaluation = one package type-checked, one conformance check or one "
         "encoder probe. Non-trivial = package contains a union, a list of models or a forward reference. distinct = hash(document).")
 ASSUMPTIONS = [
     "mypy's verdict depends on the installed mypy/httpx/attrs versions: the repository's own golden record is type-checked first and "
@@ -90,9 +94,62 @@ def one_doc(draw):
     return {"ir": ir, "insts": insts, "served": served, "literal": draw(st.booleans())}
 
 
+UNION_MEMBERS = {"uuid": {"type": "string", "format": "uuid"}, "int": {"type": "integer"}, "date": {"type": "string", "format": "date"},
+                 "enum": {"type": "string", "enum": ["a", "b"]}, "str": {"type": "string"}, "bool": {"type": "boolean"},
+                 "num": {"type": "number"}, "model": {"$ref": "#/components/schemas/Leaf"}}
+UNION_PAIRS = [("uuid", "int"), ("date", "int"), ("enum", "int"), ("str", "int"), ("model", "int"), ("model", "str"), ("uuid", "bool"),
+               ("date", "num"), ("enum", "bool")]
+
+
+@st.composite
+def raw_doc(draw):
+    """Hand-shaped documents for the two places where one declaration ends up in several generated positions:
+    (i) a property declared by two allOf members (C15's matrix cells that have a conjunction, with defaults),
+    (ii) one component union used by a parameter and by model properties / array items / a response with other requiredness."""
+    from . import c15
+
+    if draw(st.booleans()):
+        meets = [(a, b) for a, b in c15.pairs() if c15.meet(a, b) is not None
+                 and not ({a, b} & {"arr_int", "arr_num"} and "KF-C11-02" in _live and a != b)]
+        same_class = [(x, y) for x, y in meets if ("enum" in x and "enum" in y) or x == y]
+        a, b = draw(st.sampled_from(same_class if draw(st.booleans()) else meets))   # merges of two properties of one kind re-use more
+        case = {"a": a, "b": b, "req": [draw(st.booleans()), draw(st.booleans())],
+                "style": draw(st.sampled_from(["ref_ref", "ref_inline", "inline_ref", "inline_inline"])),
+                "defaults": draw(st.integers(0, 2)) > 0, "name": draw(st.sampled_from(sorted(c15.PROP_NAMES)))}
+        return {"raw": c15._pair_doc(case, draw(st.integers(0, 1))), "tag": f"pair:{a}+{b}", "literal": draw(st.booleans())}
+    m1, m2 = draw(st.sampled_from(UNION_PAIRS))
+    if draw(st.booleans()):
+        m1, m2 = m2, m1
+    ref_u = {"$ref": "#/components/schemas/Either"}
+    loc = draw(st.sampled_from(["query", "query", "header", "cookie"])) if "model" not in (m1, m2) else "query"
+    if loc != "query" and ({m1, m2} - {"str", "int", "enum", "bool", "num"}):
+        loc = "query"
+    if loc == "cookie" and {m1, m2} != {"str", "enum"}:
+        loc = "query"   # non-string cookies are a C03 finding
+    param = {"name": "either", "in": loc, "schema": ref_u, **({"required": True} if draw(st.booleans()) else {})}
+    holder = {"type": "object", "properties": {"one": ref_u, "many": {"type": "array", "items": ref_u},
+                                               "maybe": {"oneOf": [ref_u, {"type": "null"}]} if draw(st.booleans()) else ref_u},
+              "required": draw(st.lists(st.sampled_from(["one", "many", "maybe"]), unique=True, max_size=3))}
+    ops = {"get": {"operationId": "readThing", "parameters": [param],
+                   "responses": {"200": {"description": "ok", "content": {"application/json": {"schema": {"$ref": "#/components/schemas/Holder"}}}}}}}
+    if draw(st.booleans()):
+        ops["post"] = {"operationId": "writeThing", "requestBody": {"required": True, "content": {"application/json": {"schema": ref_u}}},
+                       "responses": {"200": {"description": "ok", "content": {"application/json": {"schema": ref_u}}}}}
+    schemas = {"Leaf": {"type": "object", "properties": {"l": {"type": "string"}}},
+               "Either": {draw(st.sampled_from(["oneOf", "anyOf"])): [UNION_MEMBERS[m1], UNION_MEMBERS[m2]]}, "Holder": holder}
+    if draw(st.booleans()):
+        schemas = {"Leaf": schemas["Leaf"], "Holder": holder, "Either": schemas["Either"]}
+    doc = {"openapi": "3.1.0", "info": {"title": "t", "version": "1"}, "paths": {"/things": ops}, "components": {"schemas": schemas}}
+    return {"raw": doc, "tag": f"shared_union:{m1}+{m2}:{loc}", "literal": draw(st.booleans())}
+
+
+def _doc_of(d):
+    return d["raw"] if "raw" in d else docs.render(d["ir"])
+
+
 @st.composite
 def batches(draw, tier):
-    return {"kind": "batch", "docs": [draw(one_doc()) for _ in range(BATCH)]}
+    return {"kind": "batch", "docs": [draw(one_doc()) for _ in range(BATCH)] + [draw(raw_doc()), draw(raw_doc())]}
 
 
 def strategy(tier):
@@ -100,7 +157,24 @@ def strategy(tier):
 
 
 def sweep(tier):
-    return [{"kind": "golden"}]
+    """The repository's golden record, then (complete, every run) the compositions in which two allOf members declare one
+    property with the same kind of schema and a default - the merges that re-use most of an already built property."""
+    from . import c15
+
+    out = [{"kind": "golden"}]
+    raw = []
+    for a, b in c15.pairs():
+        if c15.meet(a, b) is None or not (("enum" in a and "enum" in b) or a == b):
+            continue
+        if {a, b} & {"arr_int", "arr_num"} and a != b:
+            continue
+        for style in ("ref_ref", "inline_inline"):
+            for literal in ((False, True) if "enum" in a else (False,)):
+                case = {"a": a, "b": b, "req": [False, True], "style": style, "defaults": True}
+                raw.append({"raw": c15._pair_doc(case, 0), "tag": f"pair:{a}+{b}", "literal": literal})
+    for i in range(0, len(raw), 8):
+        out.append({"kind": "batch", "docs": raw[i:i + 8]})
+    return out
 
 
 # ------------------------------------------------------------------------------------------------ mypy
@@ -282,7 +356,9 @@ def run(case, ctx):
     try:
         for i, d in enumerate(case["docs"]):
             out = os.path.join(parent, f"pkg{i}")
-            res = sut.generate(docs.render(d["ir"]), cfg={"literal_enums": bool(d.get("literal"))}, out=out)
+            res = sut.generate(_doc_of(d), cfg={"literal_enums": bool(d.get("literal"))}, out=out)
+            if "raw" in d:
+                ctx.label("raw:" + d["tag"].split(":")[0])
             if res.exc is not None or not res.accepted:
                 ctx.label("generator_rejected_or_crashed")
                 env.rm(out)
@@ -302,15 +378,19 @@ def run(case, ctx):
                 rel = "/".join(path.replace("\\", "/").split("/")[1:])
                 ctx.violation("mypy.no_errors", {"code": ecode, "module": module_kind(rel), "literal": bool(d.get("literal")),
                                                  "line": line_kind(msg.split(" || ")[-1])},
-                              f"{rel}: {msg} [{ecode}] | doc#{i}")
+                              f"{rel}: {msg} [{ecode}] | doc#{i}" + (f" ({d['tag']})" if "raw" in d else ""))
         # (b), (c) runtime truthfulness
         for i, d, res in gens:
+            _defaults_truthful(ctx, d, res)
+            if "raw" in d:
+                ctx.nontrivial(d["raw"])
+                continue
             _truthful(ctx, d, res)
             txt = json.dumps(d["ir"])
             if '"union"' in txt or '"array"' in txt or '"ref"' in txt:
                 ctx.nontrivial(docs.render(d["ir"]))
         ctx.sample = {"batch_size": len(gens), "mypy_errors": len(errors),
-                      "first_doc_schemas": [n for n, _ in case["docs"][0]["ir"]["schemas"]], "literal_enums": [bool(d.get("literal")) for d in case["docs"]]}
+                      "first_doc_schemas": [n for n, _ in case["docs"][0]["ir"]["schemas"]] if "ir" in case["docs"][0] else case["docs"][0]["tag"], "literal_enums": [bool(d.get("literal")) for d in case["docs"]]}
     finally:
         env.rm(parent)
 
@@ -354,6 +434,36 @@ def _golden(ctx):
         from ..core import HarnessError
 
         raise HarnessError(f"the repository's own golden record does not type-check in this environment: {errors[:2]}")
+
+
+def _defaults_truthful(ctx, d, res):
+    """Every default a generated model class declares is a value its own annotation admits; a package that was generated
+    without an ERROR-level diagnostic imports."""
+    try:
+        pkg = sut.Loaded(res.package_dir)
+        models = pkg.models
+    except BaseException as e:  # noqa: BLE001
+        if behave._is_ctl(e):
+            raise
+        ctx.violation("truthful.package_imports", {"exc": type(e).__name__, "raw": d.get("tag", "ir").split(":")[0]}, repr(e)[:300])
+        return
+    with pkg:
+        import attrs
+
+        ns = {k: getattr(models, k) for k in dir(models) if not k.startswith("_")}
+        ns.update({"Unset": pkg.types.Unset, "UNSET": pkg.types.UNSET, "File": pkg.types.File, "datetime": dt, "UUID": uuid.UUID,
+                   "Union": typing.Union, "Any": typing.Any, "Optional": typing.Optional, "Literal": typing.Literal,
+                   "FileJsonType": getattr(pkg.types, "FileJsonType", typing.Any), "Response": pkg.types.Response})
+        for name, cls in list(ns.items()):
+            if not (isinstance(cls, type) and attrs.has(cls)) or getattr(cls, "__module__", "").split(".")[0] != models.__name__.split(".")[0]:
+                continue
+            for f in attrs.fields(cls):
+                if f.default is attrs.NOTHING or isinstance(f.default, attrs.Factory) or not f.init:  # type: ignore[arg-type]
+                    continue
+                ctx.evals()
+                if not conforms(f.default, f.type, ns):
+                    ctx.violation("truthful.default", {"raw": d.get("tag", "ir").split(":")[0], "literal": bool(d.get("literal"))},
+                                  f"{name}.{f.name}: default {f.default!r} is not admitted by {f.type!r}"[:300])
 
 
 def _truthful(ctx, d, res):
